@@ -156,7 +156,7 @@ def _fire_all(P, R, fn):
     _fired_bookkeeping(P, R, fn, lp, entry, act)
 
 
-def _fired_bookkeeping(P, R, fn, lp, entry, act):
+def _fired_bookkeeping(P, R, fn, lp, entry, act, CL="f"):
     """f. an activation is recorded as fired (agenda.mark_rule_fired, and its name pushed on the returned list) on exactly
     the iterations that run the rule's action: marking a skipped (stale / retracted) activation as fired suppresses every
     later activation of a no-loop rule although a live fact still satisfies it."""
@@ -174,12 +174,12 @@ def _fired_bookkeeping(P, R, fn, lp, entry, act):
             if any(recv == r for r in rets):
                 bev[c.bb].append("report"); n_rep += 1
     if n_mark == 0:
-        R.violate("f", "mark-absent", "fire_all never calls agenda.mark_rule_fired: no-loop and activation-group tracking is not updated when a rule fires", fn, act.line)
+        R.violate(CL, "mark-absent", "fire_all never calls agenda.mark_rule_fired: no-loop and activation-group tracking is not updated when a rule fires", fn, act.line)
         return
     exits = set(t for (b, t, lab) in fn.loop_exits(lp)) | {lp["header"]}
     sets, capped = A.path_event_sets(fn, bev, start=entry, stop_blocks=exits)
     if capped:
-        R.undecide("f", "fire_all", "path enumeration capped", fn)
+        R.undecide(CL, "fire_all", "path enumeration capped", fn)
         return
     seqs = set()
     for ex, ss in sets.items():
@@ -190,11 +190,39 @@ def _fired_bookkeeping(P, R, fn, lp, entry, act):
         if a == m and (n_rep == 0 or a == r) and a <= 1:
             continue
         ok = False
-        R.violate("f", "fired-bookkeeping:%s" % ",".join(seq),
+        R.violate(CL, "fired-bookkeeping:%s" % ",".join(seq),
                   "fire_all has an iteration path with effects [%s]: the activation is %s. A skipped activation that is marked fired makes a no-loop rule never fire for the remaining live facts; a fired one that is not marked fires again" % (
                       ",".join(seq), "marked/reported as fired without running the action" if a < max(m, r) else "run without being marked/reported"), fn, act.line)
     if ok:
-        R.hold("f", "fire_all: mark_rule_fired / returned-name push happen on exactly the iterations that run the action", "%d distinct iteration effect sequences: %s" % (len(seqs), sorted(seqs)), fn)
+        R.hold(CL, "fire_all: mark_rule_fired / returned-name push happen on exactly the iterations that run the action", "%d distinct iteration effect sequences: %s" % (len(seqs), sorted(seqs)), fn)
+
+
+def fired_bookkeeping_clause(P, R, clause):
+    """C07 shares this clause (no-loop tracking is only as good as the marking of fired activations)."""
+    fn = P.one(IE + "::fire_all")
+    acts = _action_calls(fn)
+    if len(acts) != 1:
+        R.undecide(clause, "fire_all", "action call not identified", fn)
+        return
+    act, rule_sym = acts[0]
+    loops = sorted([lp for lp in fn.loops() if act.bb in lp["body"]], key=lambda lp: len(lp["body"]))
+    if not loops:
+        R.undecide(clause, "fire_all", "action call is not inside a loop", fn)
+        return
+    lp = loops[-1]
+    drv = A.loop_driver(fn, lp)
+    entry = None
+    for b in lp["body"]:
+        if fn.term(b)[2] == "switch":
+            c = strip(fn.sym_switch(b))
+            if c[0] == "discr" and strip(c[1])[0] == "call" and strip(c[1])[3] == drv.get("call_bb"):
+                ve = A.variant_edges(fn, b)
+                if ve and "Some" in ve:
+                    entry = ve["Some"]
+    if entry is None:
+        R.undecide(clause, "fire_all", "loop entry not identified", fn)
+        return
+    _fired_bookkeeping(P, R, fn, lp, entry, act, clause)
 
 
 def _built_from_wm_get(fn, evcall, lp):
